@@ -643,3 +643,123 @@ pub fn regex_text(g: &Grammar, r: &Regex) -> String {
     pr(g, r, &mut lexes);
     lexes.join(" ")
 }
+
+/// Shapes in which a node creation reaches across another open marker or out of an undoable
+/// ordered-choice attempt (lelwel's static checks accept them; the tree builder's insertion
+/// invalidates positions recorded earlier). Returns a description per occurrence.
+pub fn crossing_shapes(g: &Grammar) -> Vec<String> {
+    fn walk(r: &Regex, open: &mut Vec<u32>, try_depth_markers: &mut Vec<usize>, in_try: bool, created_later: &dyn Fn(u32) -> bool, out: &mut Vec<String>) {
+        match r {
+            Regex::Marker(n) => open.push(*n),
+            Regex::Create(None, _) => {
+                if !open.is_empty() {
+                    out.push(format!("unindexed creation while marker <{} is open", open.last().unwrap()));
+                }
+                if in_try {
+                    out.push("unindexed creation inside an undoable alternative".into());
+                }
+            }
+            Regex::Create(Some(k), _) => {
+                if let Some(pos) = open.iter().rposition(|x| x == k) {
+                    if open[pos + 1..].iter().any(|m| created_later(*m)) {
+                        out.push(format!("creation {k}> closes over the still open marker <{}", open[pos + 1]));
+                    }
+                    if in_try && try_depth_markers.last().is_some_and(|base| pos < *base) {
+                        out.push(format!("creation {k}> inside an undoable alternative for a marker set outside it"));
+                    }
+                }
+            }
+            Regex::Concat(v) => {
+                let base = open.len();
+                let mut t = in_try;
+                for c in v {
+                    walk(c, open, try_depth_markers, t, created_later, out);
+                    if matches!(c, Regex::Commit) {
+                        t = false;
+                    }
+                }
+                open.truncate(base);
+            }
+            Regex::Choice(v) => {
+                let n = v.len();
+                for (i, c) in v.iter().enumerate() {
+                    let mut o = open.clone();
+                    if i + 1 < n {
+                        try_depth_markers.push(o.len());
+                        walk(c, &mut o, try_depth_markers, true, created_later, out);
+                        try_depth_markers.pop();
+                    } else {
+                        walk(c, &mut o, try_depth_markers, in_try, created_later, out);
+                    }
+                }
+            }
+            _ => {
+                for c in r.children() {
+                    let mut o = open.clone();
+                    walk(c, &mut o, try_depth_markers, in_try, created_later, out);
+                }
+            }
+        }
+    }
+    let mut out = vec![];
+    // rules reachable inside an undoable attempt start in try mode
+    let in_choice = {
+        let mut inc = vec![false; g.rules.len()];
+        fn mark(r: &Regex, active: bool, inc: &mut Vec<bool>, ch: &mut bool) {
+            match r {
+                Regex::Ref(x) => {
+                    if active && !inc[*x] {
+                        inc[*x] = true;
+                        *ch = true;
+                    }
+                }
+                Regex::Concat(v) => {
+                    let mut a = active;
+                    for c in v {
+                        mark(c, a, inc, ch);
+                        if matches!(c, Regex::Commit) {
+                            a = false;
+                        }
+                    }
+                }
+                Regex::Choice(v) => {
+                    for (i, c) in v.iter().enumerate() {
+                        mark(c, if i + 1 < v.len() { true } else { active }, inc, ch);
+                    }
+                }
+                _ => r.children().into_iter().for_each(|c| mark(c, active, inc, ch)),
+            }
+        }
+        loop {
+            let mut ch = false;
+            for i in 0..g.rules.len() {
+                if let Some(b) = &g.rules[i].body {
+                    let a = inc[i];
+                    mark(b, a, &mut inc, &mut ch);
+                }
+            }
+            if !ch {
+                break;
+            }
+        }
+        inc
+    };
+    for (i, rule) in g.rules.iter().enumerate() {
+        let Some(b) = &rule.body else { continue };
+        let created: Vec<u32> = {
+            let mut v = vec![];
+            b.walk(&mut |x| {
+                if let Regex::Create(Some(k), _) = x {
+                    v.push(*k);
+                }
+            });
+            v
+        };
+        let created_later = |m: u32| created.contains(&m);
+        let mut open = vec![];
+        let mut tdm = if in_choice[i] { vec![usize::MAX] } else { vec![] };
+        // inside a rule that runs in try mode, the implicit start marker lies outside the attempt
+        walk(b, &mut open, &mut tdm, in_choice[i], &created_later, &mut out);
+    }
+    out
+}
